@@ -1284,6 +1284,39 @@ def rule_collection_copy_labels(rep: Report, ix: Index) -> None:
         )
 
 
+
+def rule_from_data_dtype(rep: Report, ix: Index) -> None:
+    """FieldCollection.from_data copies the flat data into freshly allocated member fields when no ghost cells are
+    supplied (`field.data.flat = ...`): the members must be allocated with the dtype of the data (or the requested dtype),
+    otherwise the assignment casts -- complex data lose their imaginary part -- and the collection does not reproduce the
+    components it was built from"""
+    f = ix.func("pde/fields/collection.py", "FieldCollection.from_data")
+    rep.saw("functions", f.ref)
+    params = [a.arg for a in f.node.args.args]
+    dname = "data" if "data" in params else None
+    if dname is None:
+        raise AnalysisError(f"{f.ref}: parameter `data` vanished")
+    copies_in = [st for st in ast.walk(f.node) if isinstance(st, ast.Assign) and any(isinstance(t, ast.Attribute) and t.attr == "flat" for t in st.targets)]
+    if not copies_in:
+        rep.note("from_data no longer assigns values into allocated members; dtype rule not applicable")
+        return
+    allocs = [st for st in ast.walk(f.node) if isinstance(st, ast.Assign) and isinstance(st.value, ast.Call) and isinstance(st.value.func, ast.Name) and st.value.func.id == "field_class"]
+    if len(allocs) != 1:
+        raise AnalysisError(f"{f.ref}: expected one allocation `field_class(grid, ...)`, found {len(allocs)}")
+    kw = {k.arg: k.value for k in allocs[0].value.keywords}
+    d = kw.get("dtype")
+    ok = d is not None and any((isinstance(x, ast.Name) and x.id in (dname, "dtype")) for x in ast.walk(d))
+    rep.oblige("FieldCollection.from_data: members that values are copied into carry the dtype of the data", ok, ast.unparse(allocs[0].value))
+    if not ok:
+        rep.violation(
+            "C14.from-data-dtype",
+            f"{f.ref}::member-allocation",
+            f"`{ast.unparse(allocs[0].value)}` allocates the members with the default dtype and `{ast.unparse(copies_in[0])[:60]}` assigns the data into them: complex (or other non-float) data are cast, "
+            "so from_data(..., with_ghost_cells=False) does not reproduce the components",
+            line=allocs[0].lineno,
+        )
+
+
 def check(tier: str) -> Report:
     rep = Report("C14", tier, "other", "static: constructor may-dataflow vs state readers, key-table equality, dim/num_axes typing of component counts, symbolic slice recurrence")
     rep.explanation = (
@@ -1305,6 +1338,7 @@ def check(tier: str) -> Report:
     rule_component_counts(rep, ix)
     rule_collection_slices(rep, ix)
     rule_collection_copy_labels(rep, ix)
+    rule_from_data_dtype(rep, ix)
     rep.assumptions += [
         "JSON float round-trip exactness is not decided",
         "a property setter/getter pair is coherent (the getter returns what the setter was given)",
